@@ -326,6 +326,16 @@ class Interp:
             if c.get("value"):
                 return self.const_val(c["value"])
             return SYM("const:" + c["constitem"])
+        if "float_bits" in c:
+            import struct
+            try:
+                if c.get("ty") == "f64":
+                    return ("fl", struct.unpack("<d", struct.pack("<Q", c["float_bits"]))[0])
+                if c.get("ty") == "f32":
+                    return ("fl", struct.unpack("<f", struct.pack("<I", c["float_bits"]))[0])
+            except Exception:
+                pass
+            return TOP
         if "zst" in c:
             return UNIT
         if c.get("opaque") == "indirect" and isinstance(c.get("repr"), str) and c["repr"].startswith('b"'):
@@ -575,10 +585,18 @@ class Interp:
         return True
 
     # ------------------------------------------------------------------ stepping
-    def run(self, entry, stop=(), env=None, cons=None, stop_at_entry_again=False, trace=()):
+    def run(self, entry, stop=(), env=None, cons=None, stop_at_entry_again=False, trace=(), invariant=True):
+        """invariant: when one abstract iteration of a loop is analysed from its header (stop_at_entry_again),
+        everything the loop may modify is first forgotten, so that the result holds for every iteration and
+        not only for the first one"""
         self.outcomes = []
         self.npaths = 0
         st0 = self.init_state(entry, env, cons, trace)
+        if stop_at_entry_again and invariant and entry in self._loops():
+            n = len(st0.trace)
+            st0 = self._havoc_loop(st0, entry)
+            st0.trace = st0.trace[:n]
+            st0.bb, st0.idx = entry, 0
         stop = set(stop)
         self._explore(st0, stop, entry if stop_at_entry_again else None, first=True)
         for o in self.outcomes:
@@ -896,6 +914,11 @@ def m_partial_eq(negate=False):
             a = _deref(interp, st, a)
         if b[0] == "ref":
             b = _deref(interp, st, b)
+        nref_ = len(t["callee"].get("self_ty", "")) - len(t["callee"].get("self_ty", "").lstrip("&"))
+        if nref_ and a[0] == "sym" and not st.cons.get(a[1]):
+            a = interp.resolve(st, interp._read(st, (("S", a[1]),)))
+        if nref_ and b[0] == "sym" and not st.cons.get(b[1]):
+            b = interp.resolve(st, interp._read(st, (("S", b[1]),)))
         adt = t["callee"].get("self_adt")
         outs = []
         if a[0] == "var" and b[0] == "var" and a[1] == b[1]:
@@ -926,6 +949,21 @@ def m_partial_eq(negate=False):
                 return [(s1, B(not negate)), (s2, B(negate))]
         if a[0] == "sym" and b[0] == "sym" and a[1] == b[1]:
             return [(st, B(not negate))]
+        # two different symbols of a field-less enum: split both
+        if a[0] == "sym" and b[0] == "sym" and adt and args[0][0] == "ref" and args[1][0] == "ref":
+            ad = interp.world.adt(adt)
+            if ad and ad["kind"] == "enum" and all(not v["fields"] for v in ad["variants"]):
+                p0, p1 = args[0][1], args[1][1]
+                nref = len(t["callee"].get("self_ty", "")) - len(t["callee"].get("self_ty", "").lstrip("&"))
+                for _ in range(nref):
+                    v0 = interp._read(st, p0)
+                    p0 = v0[1] if v0[0] == "ref" else (("S", v0[1]),) if v0[0] == "sym" else p0
+                    v1 = interp._read(st, p1)
+                    p1 = v1[1] if v1[0] == "ref" else (("S", v1[1]),) if v1[0] == "sym" else p1
+                for s2, n0 in interp.split_variant(st, p0, adt):
+                    for s3, n1 in interp.split_variant(s2, p1, adt):
+                        outs.append((s3, B((n0 == n1) != negate)))
+                return outs
         return None
     return model
 
@@ -1303,7 +1341,7 @@ def header_fixpoint(interp, header, h0_env, h0_cons, max_states=256, keep=None, 
         if len(seen) > max_states:
             raise Undecided("loop header state explosion at bb%d" % header)
         states.append(env)
-        outs = interp.run(header, env=env, cons=dict(h0_cons), stop_at_entry_again=True, trace=trace)
+        outs = interp.run(header, env=env, cons=dict(h0_cons), stop_at_entry_again=True, trace=trace, invariant=False)
         results.append((env, list(outs)))
         for o in outs:
             if o.kind == "stop" and o.info == header:
